@@ -86,13 +86,15 @@ impl Stats {
         }
     }
     pub fn class(&mut self, name: &str) {
-        if !self.frozen {
-            *self.classes.entry(name.to_string()).or_insert(0) += 1;
-        }
+        self.class_n(name, 1)
     }
     pub fn class_n(&mut self, name: &str, n: u64) {
         if !self.frozen && n > 0 {
-            *self.classes.entry(name.to_string()).or_insert(0) += n;
+            if let Some(c) = self.classes.get_mut(name) {
+                *c += n;
+            } else {
+                self.classes.insert(name.to_string(), n);
+            }
         }
     }
     pub fn nontrivial<K: Hash + ?Sized>(&mut self, key: &K, sample: impl FnOnce() -> Value) {
